@@ -253,12 +253,7 @@ class Translator(object):
 
     # ---- naming / scheduling
     def want_method(self, selfkey, defkey, node):
-        q = '%s.%s.%s' % (defkey[0], defkey[1], node.name)
-        if selfkey[1].startswith('Chipset') or selfkey == self.chipkey:
-            role = 'chipset'
-        else:
-            role = 'device'
-        key = q
+        key = '%s.%s.%s' % (defkey[0], defkey[1], node.name)
         if key not in self.funcs:
             self.funcs[key] = None
             self.todo.append((key, defkey[0], selfkey, defkey, node))
